@@ -631,7 +631,21 @@ fn judge_workload(t: &TracedWl, gen: usize, power: bool, v2: bool, deep: bool, s
 					if fs.names.keys().any(|p| p.starts_with("wal/")) {
 						res.nontrivial += 1;
 					}
-					let prio = if spec.kind == "power-v2" { 0 } else if spec.kind == "power-v0" { 1 } else { 2 };
+					// generation-2 priority: images whose commit-log tail is torn inside a record's
+					// payload first (their recovery has to repair before it appends), then other
+					// torn images, then clean power-loss images, then process-crash images
+					let prio = match (&spec.kind[..], &spec.v2) {
+						("power-v2", Some((o, _, tear, _))) => {
+							let in_wal = fs.names.iter().any(|(p, id)| id == o && p.starts_with("wal/"));
+							if in_wal && *tear > 7 {
+								0
+							} else {
+								1
+							}
+						}
+						("power-v0", _) => 2,
+						_ => 3,
+					};
 					res.images.push((h, fs.clone(), c.iter().cloned().collect(), prio));
 				}
 			}
